@@ -14,6 +14,9 @@
 //!   `J <step> ( ; <step> )*`  getopts sessions in ONE shell environment: `S <i|a|l> <optstring> <limit|*> <arg>*` (spelling:
 //!       implicit positional parameters | explicit "$@" | literal vector; run to completion or for <limit> calls), `R <value>` (OPTIND=value)
 //!   `G <optstring> <arg>*`                        `while getopts optstring v arg…` run to the end in a virtual shell
+//!   `U <names> <init> <params0> <arg>*`           `set arg…` run in a virtual shell whose option states are <init> (`name.bit;…`, all
+//!       options) and whose positional parameters are <params0> (`_` or comma-separated hex): observation = exit status, diagnostic,
+//!       output, the options whose state changed, the positional parameters afterwards (model: set.rs `main` / `modify`)
 //!
 //! Observation of `P`: options (spec, spelling, argument) + operands, or the error class with the
 //! option character / spec(s) it names.  Oracle of `P` (independent of the Lean model): the clauses of
@@ -1054,6 +1057,15 @@ fn run_t(w: &[&str]) -> (String, String) {
             }
         }
     }
+    // malformed (unknown / unmodifiable letter or name, missing name) <=> rejected, by the independent reader
+    if !oracle.starts_with("FAIL") {
+        match set_reader_defect(portable, &args) {
+            Some(true) if !obs.starts_with("err:") => oracle = format!("FAIL:malformed vector accepted: {obs}"),
+            Some(false) if obs.starts_with("err:") => oracle = format!("FAIL:well-formed vector rejected: {obs}"),
+            Some(_) if oracle == "-" => oracle = "ok".into(),
+            _ => {}
+        }
+    }
     (obs, oracle)
 }
 
@@ -1086,6 +1098,11 @@ fn run_h(w: &[&str]) -> (String, String) {
             _ => first,
         }
     };
+    let oracle = match sh_reader_defect(argv.get(1..).unwrap_or(&[])) {
+        Some(true) if !oracle.starts_with("FAIL") && !obs.starts_with("err:") => format!("FAIL:group with a letter that is no option accepted: {obs}"),
+        Some(true) if oracle == "-" => "ok".to_string(),
+        _ => oracle,
+    };
     (obs, oracle)
 }
 
@@ -1104,6 +1121,295 @@ fn run_k(w: &[&str]) -> (String, String) {
         spelling_oracle(false, &obs, (sep != args).then(|| observe_kill(false, &sep)))
     };
     (obs, oracle)
+}
+
+/// The documented argument syntax of `set` read one argument at a time, independently of set/syntax.rs (it only asks
+/// yash_env::option what a letter / a name denotes): `Some(true)` = the vector has, in option position, a group with a
+/// letter that is no modifiable option, a `-o`/`+o` without a name, or a name (`-o NAME`, `-oNAME`, `--NAME`, `++NAME`)
+/// that is unknown, ambiguous or not modifiable — malformed whatever the `portable` state; `Some(false)` = well formed
+/// and `portable` neither on nor named; `None` = not judged (the `portable` option restricts the accepted spellings).
+fn set_reader_defect(portable0: bool, args: &[String]) -> Option<bool> {
+    use yash_env::option::{canonicalize, parse_long, parse_short};
+    if args.is_empty() || (args.len() == 1 && (args[0] == "-o" || args[0] == "+o")) {
+        return if portable0 { None } else { Some(false) };
+    }
+    let mut involved = portable0;
+    let mut name_defect = |raw: &str| -> bool {
+        match parse_long(&canonicalize(raw)) {
+            Ok((o, _)) => {
+                if o == ShOpt::Portable {
+                    involved = true;
+                }
+                !o.is_modifiable()
+            }
+            Err(_) => true,
+        }
+    };
+    let mut i = 0;
+    while i < args.len() {
+        let cs: Vec<char> = args[i].chars().collect();
+        // operand, or the separator `-`
+        if cs.len() < 2 || !(cs[0] == '-' || cs[0] == '+') {
+            break;
+        }
+        if cs[1] == cs[0] {
+            // `--` is the separator; `--NAME` / `++NAME` (the latter also with an empty NAME) are long options
+            if cs.len() == 2 && cs[0] == '-' {
+                break;
+            }
+            let name: String = cs[2..].iter().collect();
+            if name_defect(&name) {
+                return Some(true);
+            }
+            i += 1;
+            continue;
+        }
+        // a group of option letters behind one sign; `o` takes the rest of the group or the next argument as a name
+        let mut k = 1;
+        while k < cs.len() {
+            let c = cs[k];
+            if c == 'o' {
+                let raw: String = if k + 1 < cs.len() {
+                    cs[k + 1..].iter().collect()
+                } else {
+                    i += 1;
+                    match args.get(i) {
+                        Some(a) => a.clone(),
+                        None => return Some(true),
+                    }
+                };
+                if name_defect(&raw) {
+                    return Some(true);
+                }
+                break;
+            }
+            match parse_short(c) {
+                Some((o, _)) if o.is_modifiable() => {}
+                _ => return Some(true),
+            }
+            k += 1;
+        }
+        i += 1;
+    }
+    if involved { None } else { Some(false) }
+}
+
+/// the same for the leading arguments of the shell's own command line, as far as they are groups of plain letters
+/// (not `o`, not `V`): `Some(true)` = a group contains a letter that is no option
+fn sh_reader_defect(args: &[String]) -> Option<bool> {
+    for a in args {
+        let cs: Vec<char> = a.chars().collect();
+        if cs.len() < 2 || !(cs[0] == '-' || cs[0] == '+') || cs[1] == cs[0] {
+            return None;
+        }
+        for &c in &cs[1..] {
+            if c == 'o' || c == 'V' {
+                return None;
+            }
+            if yash_env::option::parse_short(c).is_none() {
+                return Some(true);
+            }
+        }
+    }
+    None
+}
+
+fn opt_by_name(name: &str) -> Option<ShOpt> {
+    ShOpt::iter().find(|o| o.long_name() == name)
+}
+
+struct SetRun {
+    status: i32,
+    diag: bool,
+    stdout: String,
+    options: Vec<(ShOpt, OptState)>,
+    params: Vec<String>,
+    stuck: bool,
+}
+
+/// `set ARGS…` as the only command of a script, in a shell with the given option states and positional parameters
+fn set_run(init: &[(ShOpt, OptState)], params0: &[String], args: &[String]) -> SetRun {
+    let mut script = String::from("set");
+    for a in args {
+        script.push(' ');
+        script.push_str(&sh_quote(a));
+    }
+    let mut cfg = shell::Config::new(&script);
+    cfg.positional_params = params0.to_vec();
+    let init: Vec<(ShOpt, OptState)> = init.to_vec();
+    let (o, fin) = shell::run_with(
+        cfg,
+        move |env, _| {
+            for (opt, st) in &init {
+                env.options.set(*opt, *st);
+            }
+        },
+        |env, _| {
+            let options: Vec<(ShOpt, OptState)> = ShOpt::iter().map(|o| (o, env.options.get(o))).collect();
+            let params: Vec<String> = env.variables.positional_params().values.clone();
+            (options, params)
+        },
+    );
+    let (options, params) = fin.unwrap_or_default();
+    SetRun { status: o.exit_status, diag: !o.stderr.is_empty(), stdout: o.stdout_str(), options, params, stuck: o.stuck }
+}
+
+fn run_u(w: &[&str]) -> (String, String) {
+    let bad = || ("bad-case".to_string(), "-".to_string());
+    if w.len() < 4 {
+        return bad();
+    }
+    let mut init: Vec<(ShOpt, OptState)> = vec![];
+    for e in w[2].split(';') {
+        let Some((n, b)) = e.split_once('.') else { return bad() };
+        let Some(o) = opt_by_name(n) else { return bad() };
+        init.push((o, if b == "1" { OptState::On } else { OptState::Off }));
+    }
+    let params0: Vec<String> = if w[3] == "_" {
+        vec![]
+    } else {
+        match w[3].split(',').map(dec_str).collect::<Option<Vec<String>>>() {
+            Some(v) => v,
+            None => return bad(),
+        }
+    };
+    let Some(args) = w[4..].iter().map(|a| dec_str(a)).collect::<Option<Vec<String>>>() else { return bad() };
+    let state0 = |o: ShOpt| init.iter().rev().find(|(p, _)| *p == o).map(|(_, s)| *s);
+    guarded_pair(|| {
+        let r = set_run(&init, &params0, &args);
+        if r.stuck {
+            return ("STUCK".to_string(), "-".to_string());
+        }
+        let changed: Vec<String> = r
+            .options
+            .iter()
+            .filter(|(o, s)| state0(*o) != Some(*s))
+            .map(|(o, s)| format!("{}={}", o.long_name(), st_bit(*s)))
+            .collect();
+        // what `set` with no argument prints depends on the variables, which are not part of the case
+        let out = if r.stdout.is_empty() {
+            "-".to_string()
+        } else if args.is_empty() {
+            "vars".to_string()
+        } else {
+            enc_str(&r.stdout)
+        };
+        let obs = format!(
+            "st={} diag={} out={} chg=[{}] params=[{}]",
+            r.status,
+            r.diag as u8,
+            out,
+            changed.join(";"),
+            show_strs(r.params.iter().map(|s| s.as_str()))
+        );
+        let untouched = changed.is_empty() && r.params == params0;
+        let portable0 = state0(ShOpt::Portable) == Some(OptState::On);
+        let rejected_cleanly = r.diag && r.status != 0 && r.stdout.is_empty() && untouched;
+        let oracle = match set_reader_defect(portable0, &args) {
+            Some(true) if !rejected_cleanly => format!(
+                "FAIL:malformed invocation not rejected without effect: status {}, diagnostic {}, output {}, options changed [{}], parameters {:?}",
+                r.status, r.diag, !r.stdout.is_empty(), changed.join(";"), r.params
+            ),
+            Some(false) if r.status != 0 || r.diag => format!("FAIL:well-formed invocation rejected: status {}, diagnostic {}", r.status, r.diag),
+            _ if r.status != 0 && !rejected_cleanly => format!(
+                "FAIL:non-zero status {} but diagnostic {}, output {}, options changed [{}], parameters {:?}",
+                r.status, r.diag, !r.stdout.is_empty(), changed.join(";"), r.params
+            ),
+            _ if r.status == 0 && r.diag => "FAIL:diagnostic with zero status".to_string(),
+            Some(_) => "ok".to_string(),
+            None => "-".to_string(),
+        };
+        (obs, oracle)
+    })
+}
+
+fn guarded_pair<F: FnOnce() -> (String, String)>(f: F) -> (String, String) {
+    let cell = std::cell::RefCell::new(String::from("-"));
+    let obs = guarded(|| {
+        let (o, r) = f();
+        *cell.borrow_mut() = r;
+        o
+    });
+    (obs, cell.into_inner())
+}
+
+fn u_case(init: &[(ShOpt, OptState)], params0: &[&str], args: &[&str]) -> String {
+    let v: Vec<String> = args.iter().map(|s| s.to_string()).collect();
+    let init_s: Vec<String> = init.iter().map(|(o, s)| format!("{}.{}", o.long_name(), st_bit(*s))).collect();
+    let p0 = if params0.is_empty() { "_".to_string() } else { params0.iter().map(|p| enc_str(p)).collect::<Vec<_>>().join(",") };
+    let mut s = format!("U {} {} {}", names_dict(&v, false), init_s.join(";"), p0);
+    for a in args {
+        s.push(' ');
+        s.push_str(&enc_str(a));
+    }
+    s
+}
+
+/// the option states of a freshly configured virtual shell (`sh -c script`), with the given ones overridden
+fn initial_options(over: &[(ShOpt, OptState)]) -> Vec<(ShOpt, OptState)> {
+    let (_, fin) = shell::run_with(
+        shell::Config::new(":"),
+        |_, _| (),
+        |env, _| ShOpt::iter().map(|o| (o, env.options.get(o))).collect::<Vec<_>>(),
+    );
+    let mut v = fin.unwrap_or_default();
+    for (o, s) in over {
+        for e in v.iter_mut() {
+            if e.0 == *o {
+                e.1 = *s;
+            }
+        }
+    }
+    v
+}
+
+/// every arrangement of signs, an option letter and `o` of length 1 to 3: `-`, `+-`, `-+e`, `+o-`, `--e`, `-eo`, …
+fn sign_arrangements() -> Vec<String> {
+    let alphabet = ['-', '+', 'e', 'o'];
+    let mut v: Vec<String> = vec![];
+    for a in alphabet {
+        v.push(a.to_string());
+        for b in alphabet {
+            v.push(format!("{a}{b}"));
+            for c in alphabet {
+                v.push(format!("{a}{b}{c}"));
+            }
+        }
+    }
+    v
+}
+
+/// the arrangements at every argument position: alone, before and after valid options / `--` / `-o NAME` / operands
+fn sign_vectors(pairs: bool) -> Vec<Vec<String>> {
+    let toks = sign_arrangements();
+    let ctx: [&[&str]; 10] =
+        [&["-e"], &["+u"], &["--"], &["-"], &["-o"], &["-o", "errexit"], &["errexit"], &["X"], &["--errexit"], &["-eo"]];
+    let s = |l: &[&str]| l.iter().map(|x| x.to_string()).collect::<Vec<String>>();
+    let mut out: Vec<Vec<String>> = vec![];
+    for t in &toks {
+        out.push(vec![t.clone()]);
+        for c in ctx {
+            let mut a = s(c);
+            a.push(t.clone());
+            out.push(a.clone());
+            let mut b = vec![t.clone()];
+            b.extend(s(c));
+            out.push(b);
+            for d in [&["errexit"][..], &["X"], &["-u"], &["--"]] {
+                let mut e = a.clone();
+                e.extend(s(d));
+                out.push(e);
+            }
+        }
+    }
+    if pairs {
+        for t in &toks {
+            for u in &toks {
+                out.push(vec![t.clone(), u.clone()]);
+            }
+        }
+    }
+    out
 }
 
 fn t_case(portable: bool, args: &[&str]) -> String {
@@ -1211,6 +1517,53 @@ fn bespoke_cases(e: &mut Emitter, rng: &mut Rng, thorough: bool) {
     // `sh` with no argv at all
     if e.mine() {
         let case = "H _".to_string();
+        let (obs, oracle) = run_case(&case);
+        emit(&case, &obs, &oracle);
+    }
+    // every sign / letter / `o` arrangement of length <= 3 at every argument position (set and the command line)
+    let signs = sign_vectors(true);
+    for v in &signs {
+        let a: Vec<&str> = v.iter().map(|s| s.as_str()).collect();
+        if e.mine() {
+            for case in [t_case(false, &a), t_case(true, &a)] {
+                let (obs, oracle) = run_case(&case);
+                emit(&case, &obs, &oracle);
+            }
+        }
+        if v.len() <= 2 {
+            let mut h = vec!["yash"];
+            h.extend_from_slice(&a);
+            e.case(&h_case(&h));
+        }
+    }
+    // `U`: the set built-in run in a shell (status, diagnostic, output, option changes, positional parameters)
+    let fresh = initial_options(&[]);
+    let preset = initial_options(&[(ShOpt::ErrExit, OptState::On), (ShOpt::Clobber, OptState::Off), (ShOpt::Unset, OptState::Off)]);
+    let port = initial_options(&[(ShOpt::Portable, OptState::On)]);
+    for v in &sign_vectors(thorough) {
+        let a: Vec<&str> = v.iter().map(|s| s.as_str()).collect();
+        e.case(&u_case(&fresh, &["p", "q"], &a));
+        if thorough || v.len() <= 2 {
+            e.case(&u_case(&port, &["p", "q"], &a));
+        }
+    }
+    enumerate_tokens(e, &T_TOKENS, 2, &mut |a| {
+        let mut v = vec![u_case(&fresh, &["p", "q"], a)];
+        if a.len() < 2 || thorough {
+            v.push(u_case(&preset, &[], a));
+            v.push(u_case(&port, &["p"], a));
+        }
+        v
+    });
+    for k in 0..(if thorough { 6_000 } else { 600 }) {
+        let mut r = rng.fork();
+        if !e.mine() {
+            continue;
+        }
+        let len = 3 + r.below(3);
+        let a: Vec<&str> = (0..len).map(|_| *r.pick(&T_TOKENS)).collect();
+        let init = match k % 4 { 0 => &preset, 1 => &port, _ => &fresh };
+        let case = u_case(init, &["p", "q"], &a);
         let (obs, oracle) = run_case(&case);
         emit(&case, &obs, &oracle);
     }
@@ -1750,6 +2103,7 @@ fn run_case(case: &str) -> (String, String) {
         Some(&"T") => run_t(&w),
         Some(&"H") => run_h(&w),
         Some(&"K") => run_k(&w),
+        Some(&"U") => run_u(&w),
         _ => ("bad-case".into(), "-".into()),
     }
 }
